@@ -173,7 +173,14 @@ def literal_skeletons():
                      (F('q', X, A('hé')), eq(X, A("it's"))), (F('q', X, Y), conj(call('r', A('two\nlines'), X), eq(Y, A('A b')))),
                      (F('q', X, Y), conj(call('r', Y, X), neq_(Y, A('two\nlines'))))],
        ('q', ['any', 'any']))
+    # one clause laid out over many lines with anonymous variables at many line/column positions: every _ is its own variable
+    ml_args = [A('hub')] + [_(k) for k in range(1, 14)] + [A('end')]
+    ml_src = 'route(hub,\n' + ''.join(' ' * (k % 12) + '_,\n' for k in range(1, 14)) + '  end).\n'
+    S.append(dict(name='multiline', clauses=[(F('route', *ml_args), TRUE)], source=ml_src, facts={},
+                  query=('route', [('fixed', A('hub'))] + [('fixed', ('sym', 0)), ('fixed', ('sym', 1))] + [('fixed', V('Q%d' % k)) for k in range(3, 13)]
+                         + ['any', ('fixed', A('end'))])))
     sk('anon',
+
  [(F('p', _(1), _(2), F('f', _(3))), TRUE)],
        ('p', ['any', 'any', 'any']))
     sk('nilint', [(F('p', NIL, C(0), L()), TRUE), (F('p', L(NIL), C(7), L(L(C(1)))), TRUE)],
